@@ -561,6 +561,34 @@ func main() {
 		emit("(* timeoutReader.Read re-arms the read deadline (time.Now() + d) at every read and then reads *)")
 		emit("Definition reader_rearms_every_read : bool := %v.", ok)
 	}
+	// buffer.ReadFrom / buffer.WriteTo: the goroutine that leaves the copy loop closes the ring (first statement
+	// is `defer bf.Close()`), which is what releases a producer / consumer blocked on the other side
+	for _, fn := range []string{"ReadFrom", "WriteTo"} {
+		fd := svc.fn("buffer.go", "buffer", fn)
+		ok := false
+		if len(fd.Body.List) > 0 {
+			if ds, isDefer := fd.Body.List[0].(*ast.DeferStmt); isDefer {
+				ok = src(ds.Call) == "bf.Close()"
+			}
+		}
+		emit("Definition %s_closes_ring : bool := %v.", strings.ToLower(fn), ok)
+	}
+	// processor: its deferred function calls stop() (the teardown of a connection whose socket was cut starts there)
+	{
+		fd := svc.fn("process.go", "service", "processor")
+		ok := false
+		if len(fd.Body.List) > 0 {
+			if ds, isDefer := fd.Body.List[0].(*ast.DeferStmt); isDefer {
+				ast.Inspect(ds.Call, func(n ast.Node) bool {
+					if ce, isCall := n.(*ast.CallExpr); isCall && src(ce) == "p.stop()" {
+						ok = true
+					}
+					return true
+				})
+			}
+		}
+		emit("Definition processor_exit_calls_stop : bool := %v.", ok)
+	}
 	// processAcked switch on ackmsg.State
 	{
 		fd := svc.fn("process.go", "service", "processAcked")
